@@ -475,7 +475,7 @@ func attemptTimeoutRule(c *Ctx, rule string) {
 
 // timeoutFormOK: the expression is max(H/2, 1s) in one of the accepted idioms (if-chain or builtin max).
 func timeoutFormOK(got, H string) (bool, string) {
-	want := fmt.Sprintf("select[(%s / 2) if {NOT ((%s / 2) < 1000000000)} | 1000000000 if {((%s / 2) < 1000000000)}]", H, H, H)
+	want := fmt.Sprintf("select[(%s / 2) if {(1000000000 <= (%s / 2))} | 1000000000 if {((%s / 2) < 1000000000)}]", H, H, H)
 	alts := []string{
 		want,
 		fmt.Sprintf("call builtin.max((%s / 2), 1000000000)", H),
